@@ -53,6 +53,12 @@ func (e *Engine) smtText(o *Oblig) string {
 	for _, f := range c.typeFacts() {
 		fmt.Fprintf(&body, "(assert %s)\n", f)
 	}
+	for _, m := range sortedKeys(c.byteMems) {
+		fmt.Fprintf(&body, "(assert (forall ((r Int) (i Int)) (! (and (<= 0 (select (select %s r) i)) (<= (select (select %s r) i) 255)) :pattern ((select (select %s r) i)))))\n", m, m, m)
+	}
+	for _, a := range sortedKeys(c.byteArrs) {
+		fmt.Fprintf(&body, "(assert (forall ((i Int)) (! (and (<= 0 (select %s i)) (<= (select %s i) 255)) :pattern ((select %s i)))))\n", a, a, a)
+	}
 	if len(c.distinctRefs) > 1 {
 		fmt.Fprintf(&body, "(assert (distinct %s))\n", strings.Join(sortedKeys(c.distinctRefs), " "))
 	}
